@@ -542,9 +542,111 @@ func backpressured(r *h.Run, idx int) {
 	r.NonTrivial(label)
 }
 
+// stalledVictim: a client that subscribes to its own will topic stops
+// acknowledging; its window and its session queue fill up (queue size 3,
+// window 2); its connection is lost. The retained will is a retained message
+// like any other: a later subscriber gets it, whatever happened to the copy
+// meant for the dying client itself. The live copies stay inside the documented
+// overflow behaviour and are not judged.
+func stalledVictim(r *h.Run, idx int) {
+	if r.TooMany() {
+		return
+	}
+	r.Journal("C12 stalled victim #%d", idx)
+	b := bh.NewBroker()
+	b.Mon.Inner.SessionQueueSize = 3
+	b.Mon.Inner.ClientInflightMessages = 2
+	defer b.Shutdown()
+	fail := func(key, msg string) {
+		r.Violation("stalled/"+key, fmt.Sprintf("stalled victim #%d: %s", idx, msg), map[string]interface{}{"detail": msg, "event_log_tail": b.Log.Dump(150)})
+	}
+	wq := packet.QOS(idx % 3)
+	clean := idx%2 == 0
+	willPayload := fmt.Sprintf("will-%d", idx)
+	v, _, vca, err := b.Connect("victim", bh.ConnectOpts{ID: "c12-stalled", Clean: clean, Will: &packet.Message{Topic: "w/v", Payload: []byte(willPayload), QOS: wq, Retain: true}}, nil)
+	if err != nil || vca == nil {
+		r.Inconclusive("stalled victim could not connect")
+		return
+	}
+	_ = v.Send(&packet.Subscribe{ID: 1, Subscriptions: []packet.Subscription{{Topic: "#", QOS: 1}}})
+	if _, err := bh.AwaitAck(v, packet.SUBACK, 1); err != nil {
+		r.Inconclusive("stalled victim SUBACK")
+		return
+	}
+	pub, _, pca, err := b.Connect("pub", bh.ConnectOpts{ID: "c12-spub", Clean: true, AutoAck: true}, nil)
+	if err != nil || pca == nil {
+		r.Inconclusive("publisher")
+		return
+	}
+	// window (2) + queue (3) = 5 messages are absorbed, the sixth blocks the
+	// publisher's processor until the victim is closing
+	for i := 1; i <= 6; i++ {
+		_ = pub.Send(&packet.Publish{ID: packet.ID(i), Message: packet.Message{Topic: "x/y", QOS: 1, Payload: []byte(fmt.Sprintf("fill-%d", i))}})
+	}
+	if _, err := bh.AwaitAck(pub, packet.PUBACK, 5); err != nil {
+		r.Inconclusive("publisher PUBACK 5")
+		return
+	}
+	time.Sleep(2 * time.Millisecond) // shaping: let the sixth publish reach the full queue
+	v.Close()
+	if !b.WaitClosed("victim", bh.Watchdog) {
+		fail("victim-not-closed", "the stalled victim's client never closed")
+		return
+	}
+	if bh.Ping(pub) != nil {
+		r.Inconclusive("publisher ping after the victim died")
+		return
+	}
+	probe, _, qca, err := b.Connect("probe", bh.ConnectOpts{ID: "c12-sprobe", Clean: true, AutoAck: true}, nil)
+	if err != nil || qca == nil {
+		r.Inconclusive("probe")
+		return
+	}
+	_ = probe.Send(&packet.Subscribe{ID: 1, Subscriptions: []packet.Subscription{{Topic: "w/#", QOS: 2}}})
+	if _, err := bh.AwaitAck(probe, packet.SUBACK, 1); err != nil {
+		r.Inconclusive("probe SUBACK")
+		return
+	}
+	// fence: replays travel through the subscriber's temporary queue; a marker
+	// published afterwards travels behind them
+	_ = pub.Send(&packet.Publish{Message: packet.Message{Topic: "w/marker", Payload: []byte("marker")}})
+	if _, err := probe.WaitFor(bh.Watchdog, func(g packet.Generic) bool {
+		pp, ok := g.(*packet.Publish)
+		return ok && pp.Message.Topic == "w/marker"
+	}); err != nil {
+		r.Inconclusive("probe marker")
+		return
+	}
+	n := 0
+	for _, g := range probe.All() {
+		if pp, ok := g.(*packet.Publish); ok && pp.Message.Topic == "w/v" {
+			n++
+			if string(pp.Message.Payload) != willPayload || !pp.Message.Retain || pp.Message.QOS != wq {
+				fail("will-altered", fmt.Sprintf("retained will replayed as %s", ref.Canon(pp)))
+			}
+		}
+	}
+	if ci := b.ClientOf("victim"); ci != nil {
+		k := 0
+		for _, m := range b.Mon.Snapshot(ci).Publishes {
+			if m.Topic == "w/v" {
+				k++
+			}
+		}
+		if k != 1 {
+			fail("will-publish-count", fmt.Sprintf("Backend.Publish was called %d times with the will of the stalled victim", k))
+		}
+	}
+	if n != 1 {
+		fail("retained-will-missing", fmt.Sprintf("a client whose own queue was full died; its retained will (qos %d) was replayed %d times to a later subscriber of w/#, expected once", wq, n))
+	}
+	r.Eval()
+	r.NonTrivial(fmt.Sprintf("stalled:%d:%t", wq, clean))
+}
+
 func TestCheck(t *testing.T) {
 	r := h.New("C12", "fault_enumeration")
-	r.Rule("termination cause {DISCONNECT, peer EOF, corrupt frame, second CONNECT, CONNACK/SUBACK/PINGRESP from the client, oversized packet, keep-alive expiry, takeover by the same id (clean/unclean), MemoryBackend.Close, token-timeout kill, Backend.Publish/Subscribe failing, rejected authentication, failing Setup, CONNACK send failing before/after} x protocol state {idle, inbound QoS 1 done, inbound QoS 2 open, outbound delivery unacknowledged, blocked on a publish token} x will QoS 0-2 x retain; oracle: number of Backend.Publish calls with the will's content on behalf of the victim after its Closed() fired = 1 iff Setup succeeded and the broker did not log a received DISCONNECT, content unchanged; online, offline-persistent and late (retained) observers consistent with it. Back-pressure part: an online observer with window 1 and queue 1, both full, when a victim with a QoS 1/2 will loses its connection: after the observer acknowledges it must get the will exactly once. Non-trivial = (cause,state) pairs in which the client had been accepted; distinct by scenario")
+	r.Rule("termination cause {DISCONNECT, peer EOF, corrupt frame, second CONNECT, CONNACK/SUBACK/PINGRESP from the client, oversized packet, keep-alive expiry, takeover by the same id (clean/unclean), MemoryBackend.Close, token-timeout kill, Backend.Publish/Subscribe failing, rejected authentication, failing Setup, CONNACK send failing before/after} x protocol state {idle, inbound QoS 1 done, inbound QoS 2 open, outbound delivery unacknowledged, blocked on a publish token} x will QoS 0-2 x retain; oracle: number of Backend.Publish calls with the will's content on behalf of the victim after its Closed() fired = 1 iff Setup succeeded and the broker did not log a received DISCONNECT, content unchanged; online, offline-persistent and late (retained) observers consistent with it. Stalled-victim part: a victim subscribed to its own retained will's topic with full window and queue dies; the will is handed to the backend once and a later subscriber gets it. Back-pressure part: an online observer with window 1 and queue 1, both full, when a victim with a QoS 1/2 will loses its connection: after the observer acknowledges it must get the will exactly once. Non-trivial = (cause,state) pairs in which the client had been accepted; distinct by scenario")
 	r.Assume("DISCONNECT racing with another cause is judged by what the broker logged as received")
 	r.Exhaustive()
 	var list []scenario
@@ -568,6 +670,9 @@ func TestCheck(t *testing.T) {
 	nbp := r.Pick(24, 400)
 	h.Parallel(nbp, 8, func(i int) { backpressured(r, i) })
 	r.Count("backpressured_observer_runs", int64(nbp))
+	nsv := r.Pick(12, 200)
+	h.Parallel(nsv, 8, func(i int) { stalledVictim(r, i) })
+	r.Count("stalled_victim_runs", int64(nsv))
 	r.Sample(map[string]interface{}{"scenario": list[0].String()})
 	r.Sample(map[string]interface{}{"scenario": list[len(list)/2].String()})
 	h.Exit(r.Finish(50))
